@@ -45,6 +45,11 @@ type c19case struct {
 	// Served wraps the scripted reader in a servedReader: every answer is produced by another goroutine while the
 	// caller's stack is moved; the call runs on a fresh goroutine
 	Served bool
+	// ShortKey > 0 (signing entry points): the private key is a value below 2^(8*ShortKey) handed over in ShortKey bytes
+	ShortKey int
+	// Methods "len": the reader's dynamic type also has Len() int (as bytes.Reader, bytes.Buffer, strings.Reader have),
+	// reporting how many bytes of the stream are left; "size": Len(), Size() and Buffered()
+	Methods string
 }
 
 type tempError struct{ timeout bool }
@@ -142,6 +147,16 @@ func (s *scriptedReader) Read(p []byte) (int, error) {
 	panic("bad script answer " + ans)
 }
 
+// lenReader / sizeReader: the scripted reader seen through dynamic types with a richer method set.
+type lenReader struct{ *scriptedReader }
+
+func (l lenReader) Len() int { return len(l.data) - l.pos }
+
+type sizeReader struct{ lenReader }
+
+func (s sizeReader) Size() int64   { return int64(len(s.data)) }
+func (s sizeReader) Buffered() int { return len(s.data) - s.pos }
+
 func c19cands() map[string]*big.Int {
 	one := bigOne
 	return map[string]*big.Int{
@@ -195,6 +210,10 @@ func c19eval(r *vx.R, c c19case) {
 	if c.D != "" {
 		d = vx.UnHex(c.D)
 	}
+	if c.ShortKey > 0 && c.Fn != "genkey" {
+		d = vx.Fill("c19shortd", c.ShortKey)
+		d[0] |= 1
+	}
 	if c.E != "" {
 		e = vx.UnHex(c.E)
 	}
@@ -246,6 +265,14 @@ func c19eval(r *vx.R, c c19case) {
 		}
 		if c.Served {
 			out, err = c19call(c.Fn, &servedReader{inner: rd}, d, e, za, id, msg, px, py)
+			return
+		}
+		if c.Methods == "len" {
+			out, err = c19call(c.Fn, lenReader{rd}, d, e, za, id, msg, px, py)
+			return
+		}
+		if c.Methods == "size" {
+			out, err = c19call(c.Fn, sizeReader{lenReader{rd}}, d, e, za, id, msg, px, py)
 			return
 		}
 		out, err = c19call(c.Fn, rd, d, e, za, id, msg, px, py)
@@ -355,6 +382,20 @@ func TestVX_C19(t *testing.T) {
 			sv.Served = true
 			sv.Shape += ":served"
 			c19eval(r, sv)
+			for _, ms := range []string{"len", "size"} {
+				mv := c
+				mv.Methods = ms
+				mv.Shape += ":reader-with-" + ms
+				c19eval(r, mv)
+			}
+			if c.Fn != "genkey" && c.D == "" {
+				for _, kl := range []int{1, 31} {
+					kv := c
+					kv.ShortKey = kl
+					kv.Shape += fmt.Sprintf(":key%dbytes", kl)
+					c19eval(r, kv)
+				}
+			}
 		}
 		failing := false
 		for _, a := range c.Script {
